@@ -37,6 +37,16 @@ var subC15 = harness.NewSub("c15-xr-blocks-self-delimiting", func(c c15Case, _ h
 	p := m.Packet{Kind: m.KXR, XR: &c.X}
 	pk := conv.ToPion(p).(*rtcp.ExtendedReport)
 	out, err := pk.Marshal()
+	// a block that is not a whole number of words (odd RLE chunk count, opaque content that is
+	// not a multiple of four) cannot carry a block length equal to its size: Marshal must refuse it
+	for i, blk := range c.X.Blocks {
+		if _, werr := m.EncodeXRBlock(blk, nil); werr != nil {
+			if err == nil {
+				return fmt.Errorf("block %d (BT %d) is not a whole number of 32-bit words (%v) but Marshal succeeded: its block length field cannot equal its size in words minus one, so the blocks after it are not where their length fields say\nbytes: %s\nvalue: %s", i, blk.BT, werr, hexs(out), conv.JSON(c.X))
+			}
+			return nil
+		}
+	}
 	if err != nil {
 		return fmt.Errorf("Marshal rejected a well-formed XR: %v\nvalue: %s", err, conv.JSON(c.X))
 	}
@@ -161,6 +171,29 @@ func TestC15(t *testing.T) {
 			cl = append(cl, "bt:"+xrTypeOf(b.BT))
 		}
 		harness.Record(subC15.Name, c, c15NonTrivial(&c.X), cl...)
+		subC15.Check(rt, c)
+	})
+	// list lengths include the ones that do not fill a whole word: odd RLE chunk counts, opaque
+	// bodies of any length - alone and in combinations whose misalignments cancel
+	harness.RapidCheck(t, harness.Scale(1500, 12000), 152, func(rt *rapid.T) {
+		x := gen.XR(rt, 5)
+		unaligned := 0
+		for i := range x.Blocks {
+			b := &x.Blocks[i]
+			if rapid.IntRange(0, 1).Draw(rt, "unalign?") == 0 {
+				continue
+			}
+			switch {
+			case b.BT == m.XRLossRLE || b.BT == m.XRDupRLE:
+				b.Chunks = append(b.Chunks, gen.U16(rt, "oddchunk"))
+				unaligned++
+			case b.BT == 0 || b.BT > 7:
+				b.Body = append(b.Body, gen.BytesN(rt, rapid.IntRange(1, 3).Draw(rt, "bodyextra"), "body")...)
+				unaligned++
+			}
+		}
+		c := c15Case{X: *x}
+		harness.Record(subC15.Name, c, unaligned > 0, fmt.Sprintf("unaligned-blocks:%d", unaligned))
 		subC15.Check(rt, c)
 	})
 	// exhaustive over all ordered pairs and triples of the 8 block kinds (fields drawn)
